@@ -50,22 +50,24 @@ PROPERTY = "C19"
 LEVEL = "model_checking"
 USES_JAX = True
 RULE = (
-    "buffers: BFS over op histories {add (c/T/U for subtrajectory buffers), sample_batch with "
-    "np.random.default_rng(k) (2-3 values of k, both sampling views), update_priority (2-3 value vectors / scalar), "
-    "reset_max_priority, select_task} of the real buffer objects to depth D, states merged only when the complete object "
-    "state (every attribute, array bytes, dtype, shape, scalar type) and the add counter are identical; the search is "
-    "partitioned over the distinct states at depth P, so `states` is the sum over partitions. In every state: pickle round "
-    "trip with every pickle protocol 2..HIGHEST, a second-generation round trip, then every op sequence of length <= C "
-    "applied in lockstep to original and reloaded copy. One evaluation = one oracle comparison (one reloaded state, one "
-    "lockstep step). non-trivial = the saved state has wrapped, or is mid-episode, or holds non-uniform priorities / a "
-    "moved priority maximum, or holds a pending sampled batch, or (multi-task) a task other than 0 is selected or data "
-    "exist in >= 2 tasks; distinct = distinct (configuration, saved state). modules: every (module type, parameter set, "
-    "saved version, save route, restore route); all are non-trivial because the restore target differs from the saved "
-    "module in every variable before the restore (counted)."
+    "buffers: BFS over op histories {add (c/T/U for subtrajectory buffers), sample_batch(2, ...) with "
+    "np.random.default_rng(k) for 3 values of k (covering both sampling views / two beta values), update_priority with "
+    "[2,0.5] / [0.25,0.125] / scalar 3.0, reset_max_priority, select_task(0|1)} of the real buffer objects to depth D; two "
+    "states are merged only when the complete visible object state (every attribute, array bytes of the written prefix, "
+    "dtype, shape, scalars, key order) and the add counter are identical. EVERY reached state is a save point: pickle "
+    "round trip with every protocol 2..HIGHEST, a second-generation round trip, then every op sequence of length <= C "
+    "over the same alphabet applied in lockstep to the original and the reloaded copy (`states`/`transitions` count each "
+    "configuration's deepest search once; shallower searches of the same configuration are sub-graphs). One evaluation = one oracle "
+    "comparison (one reloaded state, one lockstep result, one lockstep state). non-trivial = the saved state has wrapped, "
+    "or is mid-episode, or holds non-uniform priorities / a moved priority maximum, or holds a pending sampled batch, or "
+    "(multi-task) a task other than 0 is selected or data exist in >= 2 tasks; distinct = distinct (configuration, saved "
+    "state). modules: every (module type, parameter set, saved version, save route, restore route); non-trivial when the "
+    "restore target differed from the saved module before the restore (counted per variable); distinct = that tuple."
 )
 ASSUMPTIONS = [
     "numpy Generators seeded with the same integer are in the same state; the generator is owned by the harness and recreated for every sample op",
-    "never-written slots of np.empty storage are overwritten by the harness with a fixed pattern right after allocation so that states are reproducible; pickle carries them verbatim either way",
+    "never-written slots (index >= current_len) of the np.empty ring / priority storage are not contents: they are excluded from every comparison, and overwritten by the harness with a fixed pattern right after allocation so that a read of one would be reproducible",
+    "a Python float/int/bool and the numpy scalar of the same value count as the same scalar",
     "the structural copier used to branch the search (attribute-wise copy, no __getstate__/__setstate__/deepcopy) is trusted; it is validated by re-executing every BFS path from a fresh object",
     "during the bulk search jax.numpy inside replay_buffer.sample_batch is replaced by numpy (host->device transfer is the identity for equality); separate shallower work items run the same search with the real jax.numpy",
     "buffer capacities 2-4, horizon <= 2, 2 tasks, batch size 2; histories of length <= D + C",
@@ -142,27 +144,32 @@ def buffer_items(tier, seed):
     q = tier == "quick"
     out = []
 
-    def add(kind, D, C, n, real_jnp=False):
+    def add(kind, D, C, n, real_jnp=False, graph=True):
         base = dict(BUFS[kind])
         for i in range(n):
             nm = f"buf-{kind}-D{D}-C{C}{'-jnp' if real_jnp else ''}-shard{i}of{n}"
-            out.append(dict(name=nm, part="buf", kind=kind, D=D, C=C, shard=i, nshards=n, real_jnp=real_jnp, seed=seed, **base))
+            out.append(dict(name=nm, part="buf", kind=kind, D=D, C=C, shard=i, nshards=n, real_jnp=real_jnp, graph=graph, seed=seed, **base))
 
     if q:
-        for kind, n in (("MultiTask-SubPER", 12), ("SubtrajectoryReplayBufferPER", 6), ("SubtrajectoryReplayBufferPER-H1", 6),
+        for kind, n in (("MultiTask-SubPER", 16), ("SubtrajectoryReplayBufferPER", 8), ("SubtrajectoryReplayBufferPER-H1", 8),
                         ("MultiTask-LAP", 3), ("LAP", 2), ("LAP-cap2", 2), ("PrioritizedReplayBuffer", 2),
                         ("SubtrajectoryReplayBuffer", 2), ("ReplayBuffer", 1), ("ReplayBuffer-custom", 1)):
             add(kind, 5, 2, n)
     else:
-        add("MultiTask-SubPER", 5, 3, 32)
-        add("MultiTask-SubPER", 6, 2, 16)
-        for kind, n in (("SubtrajectoryReplayBufferPER", 64), ("SubtrajectoryReplayBufferPER-H1", 48), ("MultiTask-LAP", 16),
-                        ("LAP", 8), ("LAP-cap2", 6), ("PrioritizedReplayBuffer", 8), ("SubtrajectoryReplayBuffer", 4),
+        # the three largest state spaces: 3-step continuations one level shallower, 2-step continuations at full depth
+        # (the shallower search is a sub-graph of the deeper one and is not added to the state count)
+        add("MultiTask-SubPER", 5, 3, 24, graph=False)
+        add("MultiTask-SubPER", 6, 2, 8)
+        add("SubtrajectoryReplayBufferPER", 6, 3, 12, graph=False)
+        add("SubtrajectoryReplayBufferPER", 7, 2, 4)
+        add("SubtrajectoryReplayBufferPER-H1", 6, 3, 8, graph=False)
+        add("SubtrajectoryReplayBufferPER-H1", 7, 2, 3)
+        for kind, n in (("MultiTask-LAP", 8), ("LAP", 2), ("LAP-cap2", 2), ("PrioritizedReplayBuffer", 2), ("SubtrajectoryReplayBuffer", 1),
                         ("ReplayBuffer", 1), ("ReplayBuffer-custom", 1)):
             add(kind, 7, 3, n)
-    # the same search with the real jax.numpy transfer in sample_batch (shallower: ~1 ms per sampled batch)
+    # the same search with the real jax.numpy transfer in sample_batch (shallower: ~1 ms per sampled batch); sub-graphs as well
     for kind in BUFS:
-        add(kind, 3, 1, 1, real_jnp=True)
+        add(kind, 3, 1, 1, real_jnp=True, graph=False)
     return out
 
 
@@ -196,102 +203,83 @@ def new_buffer(cfg):
 # -- complete object state ------------------------------------------------------------------
 
 
-def _enc(v, out, path, leaves):
-    """Appends a canonical byte encoding of v to `out`; if `leaves` is a dict also records path -> description."""
-    if isinstance(v, np.ndarray):
-        head = f"A:{v.dtype.str}:{v.shape}:".encode()
-        body = v.tobytes()
-        out.append(head)
-        out.append(body)
-        if leaves is not None:
-            leaves[path] = ("ndarray", v.dtype.str, tuple(v.shape), body)
-    elif isinstance(v, dict):
-        out.append(f"D:{type(v).__name__}:{len(v)}:".encode())
-        if leaves is not None:
-            leaves[path + ".<keys>"] = (type(v).__name__, tuple(map(repr, v)))
-        for k, x in v.items():  # order is state (it is the Batch field order)
-            out.append(repr(k).encode())
-            _enc(x, out, f"{path}.{k}", leaves)
-    elif isinstance(v, (list, tuple)):
-        out.append(f"L:{type(v).__name__}:{len(v)}:".encode())
-        if leaves is not None:
-            leaves[path + ".<len>"] = (type(v).__name__, len(v))
-        for i, x in enumerate(v):
-            _enc(x, out, f"{path}[{i}]", leaves)
-    elif isinstance(v, (set, frozenset)):
-        items = sorted((type(x).__name__, repr(x)) for x in v)
-        out.append(f"S:{type(v).__name__}:{items!r}".encode())
-        if leaves is not None:
-            leaves[path] = (type(v).__name__, tuple(items))
-    elif isinstance(v, type):
-        d = ("type", v.__name__, tuple(getattr(v, "_fields", ())))
-        out.append(repr(d).encode())
-        if leaves is not None:
-            leaves[path] = d
-    elif isinstance(v, (bool, int, float, str, bytes, type(None), np.generic)):
-        d = (type(v).__name__, repr(v))
-        out.append(repr(d).encode())
-        if leaves is not None:
-            leaves[path] = d
-    elif hasattr(v, "__dict__"):
-        out.append(f"O:{type(v).__name__}:".encode())
-        if leaves is not None:
-            leaves[path + ".<class>"] = type(v).__name__
-        for k in sorted(vars(v)):
-            out.append(k.encode() + b"=")
-            _enc(vars(v)[k], out, f"{path}.{k}" if path else k, leaves)
-    else:
-        d = (type(v).__name__, repr(v))
-        out.append(repr(d).encode())
-        if leaves is not None:
-            leaves[path] = d
-    out.append(b";")
+def state_of(v, n=None):
+    """Complete *visible* object state as a tagged nested tuple: array bytes, dtype, shape, typed scalars, key order.
 
-
-def state_of(v):
-    """Complete object state as a nested tuple (fast path; exact: array bytes, dtype, shape, scalar types, key order)."""
+    Slots of the ring storage (and of the priority store) that were never written (index >= current_len) are
+    allocated with np.empty; they are not contents, so only the written prefix takes part (`n`)."""
     t = type(v)
     if t is np.ndarray:
-        return (v.dtype.str, v.shape, v.tobytes())
+        if n is not None and v.ndim >= 1:
+            return ("A", v.dtype.str, v.shape, v[:n].tobytes())
+        return ("A", v.dtype.str, v.shape, v.tobytes())
     if t is int or t is bool or t is str or v is None:
-        return (t.__name__, v)
-    if t is float or isinstance(v, np.generic):
-        return (t.__name__, repr(v))
+        return ("V", t.__name__, v)
+    if t is float or isinstance(v, np.floating):  # a Python float and a numpy float64 of the same value are the same scalar
+        return ("V", "float", repr(float(v)))
+    if isinstance(v, np.integer):
+        return ("V", "int", int(v))
+    if isinstance(v, np.bool_):
+        return ("V", "bool", bool(v))
+    if isinstance(v, np.generic):
+        return ("V", t.__name__, repr(v))
     if isinstance(v, np.ndarray):
-        return (t.__name__, v.dtype.str, v.shape, v.tobytes())
+        return ("A", t.__name__ + v.dtype.str, v.shape, v.tobytes())
     if isinstance(v, dict):
-        return (t.__name__, tuple([(k, state_of(x)) for k, x in v.items()]))  # order is state (Batch field order)
+        return ("D", t.__name__, tuple([(k, state_of(x, n)) for k, x in v.items()]))  # order is state (Batch field order)
     if t is list or t is tuple:
-        return (t.__name__, tuple([state_of(x) for x in v]))
+        return ("L", t.__name__, tuple([state_of(x) for x in v]))
     if t is set or t is frozenset:
-        return (t.__name__, tuple(sorted((type(x).__name__, repr(x)) for x in v)))
+        return ("S", t.__name__, tuple(sorted((type(x).__name__, repr(x)) for x in v)))
     if isinstance(v, type):
-        return ("type", v.__name__, tuple(getattr(v, "_fields", ())))
+        return ("T", v.__name__, tuple(getattr(v, "_fields", ())))
     if hasattr(v, "__dict__"):
-        return ("object", t.__name__, tuple([(k, state_of(x)) for k, x in sorted(vars(v).items())]))
-    return (t.__name__, repr(v))
+        d = vars(v)
+        m = d.get("current_len") if (isinstance(d.get("buffer"), dict) and type(d.get("current_len")) is int) else None
+        items = []
+        for k, x in sorted(d.items()):
+            if m is not None and k == "buffer":
+                items.append((k, state_of(x, m)))
+            elif m is not None and k == "priority" and isinstance(getattr(x, "priority", None), np.ndarray):
+                items.append((k, ("O", type(x).__name__, tuple([(kk, state_of(xx, m if kk == "priority" else None)) for kk, xx in sorted(vars(x).items())]))))
+            else:
+                items.append((k, state_of(x)))
+        return ("O", t.__name__, tuple(items))
+    return ("V", t.__name__, repr(v))
 
 
 def state_digest(st, size=16):
     return hashlib.blake2b(repr(st).encode(), digest_size=size).digest()
 
 
-def state_leaves(obj):
-    out, leaves = [], {}
-    _enc(obj, out, "", leaves)
-    return leaves
+def _flatten(st, path, out):
+    tag = st[0]
+    if tag == "A":
+        try:
+            vals = np.frombuffer(st[3], dtype=np.dtype(st[1])).tolist()[:16]
+        except Exception:  # noqa: BLE001
+            vals = st[3].hex()[:64]
+        out[path] = ("ndarray", st[1], list(st[2]), vals)
+    elif tag in ("D", "O"):
+        out[path + ".<type>"] = st[1]
+        out[path + ".<keys>"] = [str(k) for k, _ in st[2]] if tag == "D" else sorted(str(k) for k, _ in st[2])
+        for k, x in st[2]:
+            _flatten(x, f"{path}.{k}" if path else str(k), out)
+    elif tag == "L":
+        out[path + ".<type,len>"] = (st[1], len(st[2]))
+        for i, x in enumerate(st[2]):
+            _flatten(x, f"{path}[{i}]", out)
+    else:
+        out[path] = st
 
 
 def diff_leaves(a, b, limit=8):
-    la, lb = state_leaves(a), state_leaves(b)
+    """Paths at which the visible states of two objects differ (slow path, only used to describe a violation)."""
+    la, lb = {}, {}
+    _flatten(state_of(a), "", la)
+    _flatten(state_of(b), "", lb)
     paths = [p for p in sorted(set(la) | set(lb)) if la.get(p, "<absent>") != lb.get(p, "<absent>")]
-
-    def short(x):
-        if isinstance(x, tuple) and x and x[0] == "ndarray":
-            return ["ndarray", x[1], list(x[2]), np.frombuffer(x[3], dtype=np.dtype(x[1])).tolist()[:12]]
-        return x
-
-    return paths, {p: dict(original=short(la.get(p, "<absent>")), reloaded=short(lb.get(p, "<absent>"))) for p in paths[:limit]}
+    return paths, {p: dict(original=la.get(p, "<absent>"), reloaded=lb.get(p, "<absent>")) for p in paths[:limit]}
 
 
 def clone(v):
@@ -502,7 +490,8 @@ def check_state(bd, hist, col, ops):
             return
         if state_of(R) != before:
             paths, d = diff_leaves(S, R)
-            only_batch = all(p.split(".")[-1] == "Batch" for p in paths)
+            last = [p.split(".")[-1] for p in paths]
+            only_batch = "Batch" in last and all(x in ("Batch", "<keys>") for x in last)
             col.violation(SIG.format(E, K_BATCH if only_batch else K_STATE), dict(history=H, protocol=proto, differing=paths[:20], values=d))
             return
         if not all(batch_type_ok(x) for x in inner_buffers(R)):
@@ -558,7 +547,7 @@ def _continue(S, R, blob, g, depth, cfg, col, ops, H, path, E, fresh_bytes):
             continue
         if depth == 0:
             # vacuity guard: would an object rebuilt by the constructor have behaved differently here?
-            fk = (cfg["kind"], op, g)
+            fk = (cfg["kind"], cfg["real_jnp"], cfg["seed"], op, g)
             if fk not in _FRESH_STEP:
                 F = new_buffer(cfg)
                 rf = run_op(F, op, g, cfg)
@@ -600,12 +589,13 @@ def buffer_item(cfg, col):
         res = e1.bfs(make=lambda: make_real(cfg), ops=lambda bd: ops, apply=apply, canon=canon, on_state=on_state,
                      max_depth=D, validate=(shard == 0), copier=copy_bundle)
         col.outcome("save_points", counter[1])
-        if shard == 0:  # the graph is the same in every shard; it is reported once
-            col.graph(res["states"], res["transitions"], res["validated"], res["max_depth"])
+        if shard == 0:  # the graph is the same in every shard; it is reported once (and not at all for sub-graphs)
+            if cfg["graph"]:
+                col.graph(res["states"], res["transitions"], res["validated"], res["max_depth"])
             deepest = max(res["paths"].values(), key=len)
             col.sample(dict(config=cfg["name"], alphabet=[list(o) for o in ops], deepest_history=[list(o) for o in deepest]))
             col.append("configurations", dict(name=cfg["name"].rsplit("-shard", 1)[0], states=res["states"], transitions=res["transitions"],
-                                              depth=D, continuation_length=cfg["C"], alphabet_size=len(ops), shards=n))
+                                              depth=D, continuation_length=cfg["C"], alphabet_size=len(ops), shards=n, counted_in_states=cfg["graph"]))
     finally:
         rb.jnp = real
 
@@ -625,7 +615,8 @@ def module_items(tier, seed):
     K = 2 if tier == "quick" else 3
     for kind in MODULES:
         for ps in PSETS:
-            out.append(dict(name=f"mod-{kind}-{ps}", part="mod", module=kind, pset=ps, versions=K, seed=seed))
+            for s in ([seed] if tier == "quick" else [seed, seed + 3]):
+                out.append(dict(name=f"mod-{kind}-{ps}-seed{s}", part="mod", module=kind, pset=ps, versions=K, seed=s))
     return out
 
 
@@ -872,7 +863,7 @@ def module_item(item, col):
                     col.violation(SIG.format(entry, K_STEP), dict(case, got=str(after)[:200]))
                 else:
                     col.outcome("continuation_training_steps_equal")
-        col.sample(dict(base, versions=K, artefacts=[[k, r] for k, r, _ in saved], n_variables=len(versions[0]["snap"]),
+        col.sample(dict(base, versions=K, artefacts=" ".join(f"v{k}:{r}" for k, r, _ in saved), n_variables=len(versions[0]["snap"]),
                         variable_types=sorted({t for _, t in versions[0]["vtypes"]})))
     finally:
         shutil.rmtree(tmp, ignore_errors=True)
